@@ -42,7 +42,7 @@ func stepFinding(op memsim.Op, d, v memsim.Result, trace []BCall, haveTrace bool
 		}
 	case "PushBlob":
 		if d.Kind == "err" && v.Kind == "err" && op.Desc.Size != int64(len(op.Content)) && op.Desc.Size > 0 && len(op.Content) > 0 &&
-			(v.Code == "" || v.Code == "DIGEST_INVALID") && d.Code != v.Code && d.Code != "" {
+			v.Code == "SIZE_INVALID" && d.Code != v.Code && d.Code != "" {
 			return "push-size"
 		}
 	case "Referrers":
